@@ -42,8 +42,8 @@ Example C08_src_example :
   let m := mk [cG;cG;cT;cC;cT;cC;cA; cC;cT;cA;cT; cC;cC; cG;cC;cT;cT; cT; cG;cA;cG;cA;cC;cC; cA;cT] in
   let v := mk [cA; cC;cT;cA;cT; cT; cG;cA;cG;cA;cC;cC; cT;cT;cT;cT; cG;cG;cT;cC;cT;cC; cA; cG;cC;cT;cT; cC; cC;cA] in
   let me := ENT 0 (generic_cls RModule e)
-               (PR KCircularRecord m 11 [F false 1 5 [P 8 12 Plus]; F false 2 6 [P 20 26 Minus]] None []) in
-  let ve := ENT 99 (generic_cls RVector e) (PR KCircularRecord v 10 [] None []) in
+               (PR KCircularRecord m 11 [F false 1 5 [P 8 12 Plus]; F false 2 6 [P 20 26 Minus]] an_empty [] 0) in
+  let ve := ENT 99 (generic_cls RVector e) (PR KCircularRecord v 10 [] an_empty [] 0) in
   match vector_assemble 3 ve [me] with
   | Ok (prod, ws) =>
       pr_seq prod = mk [cC;cT;cA;cT;cC;cC; cG;cC;cT;cT;cC;cC;cA;cA] /\ ws = [] /\
